@@ -109,3 +109,8 @@ pub use crate::{
 // Build time diagnostics for validation
 #[cfg(curve25519_dalek_diagnostics = "build")]
 mod diagnostics;
+
+// Verification hook (guard: cfg(kani), set only by `cargo kani`): mounts the in-crate Kani harnesses kept in /verif.
+#[cfg(kani)]
+#[path = "/verif/kani/incrate/curve_harness.rs"]
+mod verif_kani;
